@@ -811,6 +811,9 @@ class SingleInstanceDataset(BaseDataset):
             use_existing_chunks=use_existing_chunks,
         )
         self.confmap_head_config = confmap_head_config
+        # single-instance samples hold exactly one instance: do not NaN-pad the keypoints
+        # to the (unfiltered) instance count of the labels (same as `single_instance_data_chunks`).
+        self.max_instances = 1
         if not self.use_existing_chunks:
             rank = get_dist_rank()
             if (
